@@ -2,3 +2,6 @@ import DitModel.Core.Table
 import DitModel.Core.Sampling
 import DitModel.Core.Counts
 import DitModel.Core.Simplex
+import DitModel.Core.Dist
+import DitModel.Core.Coalesce
+import DitModel.Props.C12
